@@ -16,7 +16,7 @@ ID = "C18"
 GENS = ["gen_dfs", "gen_wilson", "gen_percolation", "gen_dfs_percolation", "gen_prim"]
 
 KW_SHAPES = ["none", "acc", "acc_depth", "p", "start"]
-EP_SHAPES = ["none", "flags", "allowed", "allowed_both", "explicit_none"]
+EP_SHAPES = ["none", "flags", "allowed", "allowed_both", "explicit_none", "empty_list"]
 FILTER_SHAPES = ["none", "one_kw", "two", "args"]
 
 
@@ -65,6 +65,8 @@ def _build(ctx, tag, gen, kw_shape, ep_shape, f_shape, sym=True):
         ep["except_when_invalid"] = True
     if ep_shape == "explicit_none":  # options spelled out with their default None / False values: the keys must survive
         ep = dict(allowed_start=[(I("as0", 0, 63), I("as1", 0, 63))], allowed_end=None, deadend_start=B("ds"), deadend_end=False, endpoints_not_equal=False)
+    if ep_shape == "empty_list":  # an empty coordinate list ("no position allowed") is not the same as None ("no restriction")
+        ep = dict(allowed_start=[], allowed_end=[(I("ae0", 0, 63), I("ae1", 0, 63))], deadend_end=B("de"))
     filters = []
     if f_shape in ("one_kw", "two"):
         filters.append(dict(name="path_length", args=(), kwargs=dict(min_length=I("ml", 0, 100))))
@@ -189,6 +191,8 @@ def _concrete_cfg(job, inputs, tag):
         ep["except_when_invalid"] = True
     if ep_shape == "explicit_none":
         ep = dict(allowed_start=[(g("as0"), g("as1"))], allowed_end=None, deadend_start=bool(g("ds", False)), deadend_end=False, endpoints_not_equal=False)
+    if ep_shape == "empty_list":
+        ep = dict(allowed_start=[], allowed_end=[(g("ae0"), g("ae1"))], deadend_end=bool(g("de", False)))
     filters = []
     if f_shape in ("one_kw", "two"):
         filters.append(dict(name="path_length", args=(), kwargs=dict(min_length=g("ml"))))
@@ -432,9 +436,9 @@ def jobs(tier, seed):
     # every shape value appears with every generator at least once; the rest sampled
     base = []
     for g in GENS:
-        for i in range(5):
+        for i in range(6):
             k = KW_SHAPES[i % len(KW_SHAPES)] if g != "gen_wilson" else "none"
-            base.append((g, k, EP_SHAPES[i % 5], FILTER_SHAPES[(i + 1) % 4]))
+            base.append((g, k, EP_SHAPES[i % 6], FILTER_SHAPES[(i + 1) % 4]))
     extra = [combos[i] for i in rng.choice(len(combos), size=10 if q else 60, replace=False)]
     for g, k, e, f in dict.fromkeys(base + extra):
         out.append(dict(h="roundtrip", gen=g, kw=k, ep=e, f=f))
@@ -462,7 +466,7 @@ META = dict(
     bounds=dict(
         quick="grid_n, n_mazes, seed, seq_len_min/max, generator arguments, endpoint flags, coordinates inside allowed_start/allowed_end and inside filter arguments all symbolic "
               "(wide integer ranges); 5 generators x kwargs shapes {none, accessible_cells, +depth/forks, p, start_coord} x endpoint shapes {none, flags, allowed_start, "
-              "+allowed_end, options spelled out with explicit None / False} x filter-list shapes {none, one, two, positional args with a coordinate}: 25 covering + 10 sampled shape combinations for the round trip, 15 for "
+              "+allowed_end, options spelled out with explicit None / False, an empty coordinate list} x filter-list shapes {none, one, two, positional args with a coordinate}: 25 covering + 10 sampled shape combinations for the round trip, 15 for "
               "pairwise discrimination; identity (hash content-only, every single-field variation, in-place edits, file-name form) on 12 concrete configurations; "
               "cross-process comparison under 2 PYTHONHASHSEED values",
         thorough="85 shape combinations, 45 discrimination pairs, 24 concrete configurations, 4 hash seeds",
